@@ -19,6 +19,11 @@ func VH_C06_gw(kind1, kind2, order int) {
 	h.clientID, h.keepAlive = "c", 10
 	h.state.Set(util.StateActive)
 	m1, m2 := vNondetU16("m1"), vNondetU16("m2")
+	if kind2 == 3 {
+		// QoS 0 on a new topic: the gateway chooses the message ID of its REGISTER itself
+		// (m2 is not used): whatever m1 is, it must choose one that is free
+		vAssume(m1 != m2)
+	}
 	vLabel("same_id", vB2U(m1 == m2))
 	vLabel("kind1", uint64(kind1))
 	vLabel("kind2", uint64(kind2))
@@ -51,11 +56,14 @@ func VH_C06_gw(kind1, kind2, order int) {
 			p.Qos, p.TopicName = 2, "xy"
 		case 2:
 			p.Qos, p.TopicName = 1, "new/topic"
+		case 3:
+			p.Qos, p.TopicName, p.MessageID = 0, "new/topic", 0
 		}
 		vAssume(x.feedMQ(p) == nil)
 		for _, d := range x.sn.take() {
 			if r := vParseSN(d); r.OK && r.Typ == vtREGISTER {
 				vLastRegisterID = r.TopicID
+				vLastRegisterMsgID = r.MsgID
 			}
 		}
 	}
@@ -66,6 +74,13 @@ func VH_C06_gw(kind1, kind2, order int) {
 		start2()
 		start1()
 	}
+	if kind2 == 3 {
+		// the two exchanges collide when the client's ID equals the one the gateway chose
+		// (possible only when the gateway chose first: the known shared-store defect)
+		vLabel("same_id", vB2U(m1 == vLastRegisterMsgID))
+	}
+	// a collision the gateway could have avoided: it chose its ID when the client's exchange already existed
+	vLabel("avoidable", vB2U(kind2 == 3 && order == 0))
 	// the broker acknowledges the client's exchange
 	switch kind1 {
 	case 0:
@@ -107,6 +122,10 @@ func VH_C06_gw(kind1, kind2, order int) {
 		a := snPkts1.NewRegack(vC06RegisterID(h, id), snPkts1.RC_ACCEPTED)
 		a.SetMessageID(m2)
 		x.feedSN(a)
+	case 3:
+		a := snPkts1.NewRegack(vLastRegisterID, snPkts1.RC_ACCEPTED)
+		a.SetMessageID(vLastRegisterMsgID)
+		x.feedSN(a)
 	}
 	mq := x.mq.take()
 	sn := x.sn.take()
@@ -116,7 +135,7 @@ func VH_C06_gw(kind1, kind2, order int) {
 		ok2 = vCountMQ(mq, vmPUBACK) == 1
 	case 1:
 		ok2 = vCountMQ(mq, vmPUBREC) == 1
-	case 2:
+	case 2, 3:
 		ok2 = vCountSN(sn, vtPUBLISH) == 1
 	}
 	vReach("C06.gw_done")
@@ -128,4 +147,4 @@ func vC06RegisterID(h *handler1, fallback uint16) uint16 {
 	return vLastRegisterID
 }
 
-var vLastRegisterID uint16
+var vLastRegisterID, vLastRegisterMsgID uint16
